@@ -407,4 +407,101 @@ example : (revert (run (Db.empty.set (0, 0) [(1, 10)])
       [.get 0 0 1, .set 0 0 1 5, .create 3 [(0, [(1, 1)])]])).map toStateUpdates
     = some ([], []) := by decide
 
+/-! ### revert, whole track, with force-written substates: no created node survives
+
+For EVERY track (force-written substates included): when `revert_non_force_write_changes` does not
+panic, no tracked node of the reverted track is marked new, so a failed transaction never reports
+a new node id (`toStateUpdates t').1 = []`). -/
+
+def NoNew (nodes : Nodes) : Prop := ∀ nn ∈ nodes, nn.2.isNew = false
+
+theorem alter_noNew (nodes : Nodes) (n : Nat) (f : TNode → TNode)
+    (hf : ∀ nd, (f nd).isNew = nd.isNew) (h : NoNew nodes) :
+    NoNew (IMap.alter nodes n { parts := [], isNew := false } f) := by
+  induction nodes with
+  | nil =>
+    intro nn hnn
+    simp only [IMap.alter, List.mem_singleton] at hnn
+    rw [hnn]; exact hf _
+  | cons hd rest ih =>
+    intro nn hnn
+    simp only [IMap.alter] at hnn
+    split at hnn
+    · rcases List.mem_cons.mp hnn with rfl | hm
+      · show (f hd.2).isNew = false
+        rw [hf]; exact h hd (List.mem_cons_self ..)
+      · exact h nn (List.mem_cons_of_mem _ hm)
+    · rcases List.mem_cons.mp hnn with rfl | hm
+      · exact h _ (List.mem_cons_self ..)
+      · exact ih (fun x hx => h x (List.mem_cons_of_mem _ hx)) nn hm
+
+theorem putIn_noNew (nodes : Nodes) (n p k : Nat) (tv : TV) (h : NoNew nodes) :
+    NoNew (putIn nodes n p k tv) :=
+  alter_noNew nodes n _ (fun _ => rfl) h
+
+theorem applyForcePart_noNew (n p : Nat) (part : TPart) (nodes nodes' : Nodes) (h : NoNew nodes)
+    (hr : applyForcePart nodes n p part = some nodes') : NoNew nodes' := by
+  induction part generalizing nodes with
+  | nil => simp only [applyForcePart, Option.some.injEq] at hr; exact hr ▸ h
+  | cons ktv rest ih =>
+    simp only [applyForcePart, replaceExisting] at hr
+    split at hr
+    · exact absurd hr (by simp)
+    · rename_i nodes1 h1
+      split at h1
+      · exact absurd h1 (by simp)
+      · simp only [Option.some.injEq] at h1
+        exact ih _ (h1 ▸ putIn_noNew _ _ _ _ _ h) hr
+
+theorem applyForceNode_noNew (n : Nat) (parts : List (Nat × TPart)) (nodes nodes' : Nodes)
+    (h : NoNew nodes) (hr : applyForceNode nodes n parts = some nodes') : NoNew nodes' := by
+  induction parts generalizing nodes with
+  | nil => simp only [applyForceNode, Option.some.injEq] at hr; exact hr ▸ h
+  | cons pp rest ih =>
+    simp only [applyForceNode] at hr
+    split at hr
+    · exact absurd hr (by simp)
+    · rename_i nodes1 h1
+      exact ih _ (applyForcePart_noNew _ _ _ _ _ h h1) hr
+
+theorem applyForce_noNew (force : Nodes) (nodes nodes' : Nodes)
+    (h : NoNew nodes) (hr : applyForce nodes force = some nodes') : NoNew nodes' := by
+  induction force generalizing nodes with
+  | nil => simp only [applyForce, Option.some.injEq] at hr; exact hr ▸ h
+  | cons nn rest ih =>
+    simp only [applyForce] at hr
+    split at hr
+    · exact absurd hr (by simp)
+    · rename_i nodes1 h1
+      exact ih _ (applyForceNode_noNew _ _ _ _ h h1) hr
+
+/-- `revert_reports_no_new_node`: after any successful revert no node is reported as created -/
+theorem revert_reports_no_new_node (t t' : Track) (hr : revert t = some t') :
+    NoNew t'.nodes ∧ (toStateUpdates t').1 = [] ∧ t'.force = [] := by
+  simp only [revert] at hr
+  split at hr
+  · exact absurd hr (by simp)
+  · rename_i nodes' h1
+    simp only [Option.some.injEq] at hr
+    subst hr
+    have hk : NoNew ((IMap.retain t.nodes (fun _ nd => !nd.isNew)).map
+        (fun nn => (nn.1, nn.2.revertWrites))) := by
+      intro nn hnn
+      obtain ⟨a, ha, rfl⟩ := List.mem_map.mp hnn
+      simp only [IMap.retain, List.mem_filter] at ha
+      have := ha.2
+      simp only [TNode.revertWrites]
+      cases hh : a.2.isNew <;> simp_all
+    have hn := applyForce_noNew _ _ _ hk h1
+    refine ⟨hn, ?_, rfl⟩
+    simp only [toStateUpdates, List.map_eq_nil_iff, List.filter_eq_nil_iff]
+    intro nn hnn
+    rw [hn nn hnn]; simp
+
+/-- non-vacuity: a fee-vault style force write on an existing node plus a created node; revert
+succeeds, keeps the force-written value and reports no new node -/
+example : (revert (run (Db.empty.set (0, 0) [(1, 10)])
+      [.get 0 0 1, .set 0 0 1 5, .forceWrite 0 0 1, .set 0 0 1 6, .create 3 [(0, [(1, 1)])]])).map
+        (fun t => (toStateUpdates t).1) = some [] := by decide
+
 end Radix.Track
